@@ -34,6 +34,10 @@ const ODD: &[&str] = &["#", "##", "^^M", "^^@", "^^?", "^^", "^", "~", "$", "&",
 const FILES: &[&str] = &["fa", "fb", "fc", "loop", "nosuch", "fa.tex", "dir/fd", "a>b", "a:b", "../x", "", "\\relax", "{fa}", "fa fb"];
 const CSNAMES: &[&str] = &["ma", "mb", "mc", "xa", "xb", "undefinedcs", "par", "relax"];
 
+fn pick_n<'a, T>(rng: &mut Rng, xs: &'a [T]) -> &'a T {
+    &xs[rng.below(xs.len() as u64) as usize]
+}
+
 fn pick<'a>(rng: &mut Rng, xs: &'a [&'a str]) -> &'a str {
     xs[rng.below(xs.len() as u64) as usize]
 }
@@ -440,6 +444,16 @@ pub fn gen_pairs(seed: u64, n: usize) -> Vec<(String, String)> {
                 b.push_str(&format!("[\\{}]", names[j]));
             }
             b.push_str("\\def\\nnewone{N}\\let\\nnewtwo=\\nnewone [\\nnewtwo]");
+        }
+        // the allocator idiom: aliases of different register kinds with the same number, and codes set back to 12
+        // (the value a sparse table would take for "not set"), all before the checkpoint and all used after it
+        if rng.chance(1, 4) {
+            let k = *pick_n(&mut rng, &[0u32, 1, 10, 10, 255]);
+            let g = pick(&mut rng, &["", "", "\\global", "{"]);
+            let (go, gc) = if g == "{" { ("{", "") } else { (g, "") };
+            a.push_str(&format!("{go}\\countdef\\ya={k} {gc}{go2}\\toksdef\\yb={k} ", go2 = if g == "{" { "" } else { g }));
+            a.push_str(&format!("\\catcode`\\{}=12 ", pick(&mut rng, &["%", "#", "a", "~", "^"])));
+            b.push_str(&format!("\\ya=7 \\yb={{t}}[\\the\\ya|\\the\\yb|\\the\\count{k}|\\the\\toks{k}]100% a#~^ \n"));
         }
         b.push_str("[\\the\\count1][\\the\\dimen1][\\the\\catcode`a][\\ma][\\xa]");
         let all = format!("{a}{b}");
